@@ -7,7 +7,7 @@ import sys
 
 from .common import seed_from_env
 from .nscheck import run_property
-from .nsruns import std_spec
+from .nsruns import std_spec, ins_spec
 
 PROP = "C05"
 
@@ -25,6 +25,8 @@ def corpus(tier, seed):
         std_spec("plateau2", s + 8, 10, max_iteration=60, kills=[50]),
         std_spec("dyadic2", s + 9, 50, stopping=1.0),
         std_spec("gauss2", s + 10, 20, stopping=0.01),
+        std_spec("angle2", s + 21, 50, reparameterisations={"phi": "angle", "y": "rescaletobounds"}),
+        std_spec("angle2", s + 22, 25, reparameterisations={"phi": "angle-2pi"}, kills=[150]),
     ]
     if tier == "thorough":
         k = 11
@@ -38,9 +40,30 @@ def corpus(tier, seed):
     return specs
 
 
+def ins_corpus(tier, seed):
+    s = seed * 1000 + 550
+    specs = [
+        ins_spec("gauss2", s + 1, 100),
+        ins_spec("rosen2", s + 2, 100, draw_iid_live=False),
+        ins_spec("gauss4", s + 3, 100, strict_threshold=True, kills=[400]),
+        ins_spec("gauss2", s + 4, 80, n_initial=150, draw_constant=False, kills=[300, 300]),
+        ins_spec("gauss2", s + 5, 100, max_iteration=2, reparameterisation=None),
+    ]
+    if tier == "thorough":
+        k = 6
+        for model in ("gauss2", "rosen2", "gauss4"):
+            for iid in (True, False):
+                for strict in (True, False):
+                    for cap in (2, 6):
+                        specs.append(ins_spec(model, s + k, 100, draw_iid_live=iid, strict_threshold=strict,
+                                              max_iteration=cap, kills=[350] * (k % 3)))
+                        k += 1
+    return specs
+
+
 def main(tier: str) -> int:
     seed = seed_from_env()
-    return run_property(PROP, tier, corpus(tier, seed),
+    return run_property(PROP, tier, corpus(tier, seed), ins_specs=ins_corpus(tier, seed),
                         note="At Done the oracle (vf/oracle.py, mpmath) recomputes evidence, uncertainty, weights and "
                              "volumes from the returned samples alone and re-evaluates the model at every sample; "
                              "uninterrupted, cap-stopped and killed/resumed histories.")
